@@ -16,6 +16,7 @@ from .util import subseed, known_entry
 BUDGET = {"quick": 60, "thorough": 600}
 CHUNK = {"quick": 6, "thorough": 12}
 QUICK_N = {"C16": 72, "C17": 600, "C18": 600, "C19": 700}
+EOLS = ["\n", "\n", "\n", "\r\n", "\r\n", " \n", "\t\n", " \r\n"]
 WIDTHS = [1, 2, 5, 10, 20, 40, 80, 120, 200, 500]
 W = "tpsim.ctlworkers."
 
@@ -206,7 +207,7 @@ def _c16_check(sim, srv, pool, cls):
         sim.violate("C16", "help_unanswered", f"top-level '{flag}' got no reply")
         return
     rep = replies[top_idx]
-    listed = set(re.findall(r"^\s{2,}([a-z][a-z0-9-]*)(?=\s|$)", rep, re.M))
+    listed = set(re.findall(r"^\s{2,}([A-Za-z][A-Za-z0-9-]*)(?=\s|$)", rep, re.M))
     want = {n.replace("_", "-") for n in names}
     missing = want - listed
     if missing:
@@ -366,7 +367,22 @@ def gen_command(rng, cls, short=False):
 
 
 # ============================================================================= C17: twin runs
+def c17_big_unit(rng):
+    """Replies far above SESSION_MSG_BYTES (100 KiB): the id lists of 16 300+ tasks, served vs direct."""
+    cfg = base_config(rng, "S", frag=0.0)
+    cfg["size"] = None
+    n = rng.choice([16300, 17000, 20000])
+    cmds = [{"text": "start %d" % n, "direct": {"m": "start", "a": [n]}, "gates": []},
+            {"text": "num-running", "direct": {"m": "num_running", "a": []}, "gates": []},
+            {"text": "get-group-ids start-group-0", "direct": {"m": "get_group_ids", "a": ["start-group-0"]}, "gates": []},
+            {"text": "stop-all", "direct": {"m": "stop_all", "a": []}, "gates": []},
+            {"text": "num-running", "direct": {"m": "num_running", "a": []}, "gates": []}]
+    return cfg, cmds
+
+
 def c17_unit(rng, seed):
+    if seed == "big":
+        return c17_big_unit(rng)
     cls = rng.choice(["T", "T", "S"])
     cfg = base_config(rng, cls)
     cfg["size"] = rng.choice([None, 1, 2, 3])
@@ -380,7 +396,7 @@ def c17_unit(rng, seed):
             gates = [rng.randrange(8) for _ in range(rng.choice([1, 2, 4]))]
         if "mutator" in text:
             gates = list(range(12))      # let the mutating workers finish before the text is sent again
-        cmds.append({"text": text, "direct": direct, "gates": gates})
+        cmds.append({"text": text, "direct": direct, "gates": gates, "eol": rng.choice(EOLS)})
         if "mutator" in text or rng.random() < 0.1:
             # the very same command text again, twice more (with two alternating sessions one of them sees it twice)
             cmds.append({"text": text, "direct": copy.deepcopy(direct), "gates": list(range(12, 24))})
@@ -445,7 +461,7 @@ def c17_exec(cfg, cmds, mode):
                 state["last"] = c.label
                 if not cmd.get("noise"):
                     state["map"][i] = (c.label, len(c.lines))
-                return {"op": "line", "c": c.label, "text": cmd["text"]}
+                return {"op": "line", "c": c.label, "text": cmd["text"], "eol": cmd.get("eol", "\n")}
             if cmd.get("noise"):
                 return {"op": "idle"}
             state["map"][i] = len(s.direct_results)
@@ -514,6 +530,15 @@ BAD_INTS = ["==SUPPRESS==", "three", "1.5", "None", "0x1g", "1e3", "[1]"]
 def invalid_line(rng, cls, token):
     """A line that is certainly malformed (an int parameter given a non-int): must be answered with usage/error text."""
     bad = rng.choice(BAD_INTS)
+    if rng.random() < 0.12:
+        # a long line (still below the 64 KiB stream limit): thousands of ids after the malformed one, or one huge token
+        n = rng.choice([4097, 4200, 9000, 30000, 60000])
+        if rng.random() < 0.5:
+            ids = []
+            while sum(len(x) + 1 for x in ids) < n:
+                ids.append(str(len(ids)))
+            return f"cancel {bad} " + " ".join(ids)
+        return f"no-such-{token}-" + "y" * n
     if cls == "S":
         return rng.choice([f"start {bad}", f"stop {bad}", f"pool-size {bad}", f"cancel {bad}", f"cancel 0 {bad}"])
     return rng.choice([f"apply {W}work -n {bad} -g grp{token}", f"map {W}work [1,2] -n {bad} -g grp{token}",
@@ -621,7 +646,7 @@ def c18_run(rng):
                 steps.append({"op": "run", "n": rng.choice([1, 5, 20])})
             steps.append({"op": "raw", "c": c, "data": text[cut:] + "\n"})
         else:
-            steps.append({"op": "line", "c": c, "text": text})
+            steps.append({"op": "line", "c": c, "text": text, "eol": rng.choice(EOLS)})
         if text == "-h":
             tokens[f"{c}:{counts[c]}"] = f"tok{c}x{counts[c]}q"
             counts[c] += 1
@@ -713,7 +738,14 @@ def c19_run(rng):
         lab = i + 1
         labels.append(lab)
         kind = rng.choice(["raw", "raw", "cli", "main"])
-        if kind == "raw" and rng.random() < 0.2:
+        if kind == "raw" and rng.random() < 0.12:
+            # a client whose command line exceeds the stream limit, delivered in pieces (its session may end: that must
+            # not disturb anybody else)
+            big = "cancel " + " ".join(str(j) for j in range(30000))
+            k = rng.choice([100000, 70000, 65536])
+            seq = [{"op": "connect", "c": lab, "w": 80}, {"op": "raw", "c": lab, "data": big[:k]}, {"op": "raw", "c": lab, "data": big[k:] + "\n"},
+                   {"op": "close", "c": lab, "how": "close"}]
+        elif kind == "raw" and rng.random() < 0.2:
             seq = [{"op": "connect", "c": lab, "w": 80, "hs": rng.choice(["none", "garbage", "nokey", "partial"])}]
             if rng.random() < 0.8:
                 seq.append({"op": "close", "c": lab, "how": rng.choice(["close", "close", "eof", "abort"])})
@@ -721,7 +753,8 @@ def c19_run(rng):
             seq = [{"op": "connect", "c": lab, "w": 80}]
             for _ in range(rng.choice([0, 1, 2, 3])):
                 busy = ["start 2", "stop 1"] if cfg["cls"] == "S" else ["apply tpsim.ctlworkers.work -n 2", "map tpsim.ctlworkers.work [1,2,3] -n 2", "cancel-all"]
-                seq.append({"op": "line", "c": lab, "text": rng.choice(["num-running", "is-locked", "pool-size", "-h", "bogus", "lock", "unlock"] + busy)})
+                seq.append({"op": "line", "c": lab, "text": rng.choice(["num-running", "is-locked", "pool-size", "-h", "bogus", "lock", "unlock"] + busy),
+                            "eol": rng.choice(EOLS)})
             how = rng.choice(["close", "close", "eof", "abort", "vanish", None])
             if how:
                 seq.append({"op": "close", "c": lab, "how": how})
@@ -783,6 +816,60 @@ def c19_run(rng):
         steps += [{"op": "idle"}, {"op": "restart"}, {"op": "idle"}, {"op": "connect", "c": 50, "w": 80}, {"op": "idle"},
                   {"op": "line", "c": 50, "text": "num-running"}, {"op": "idle"}]
     return {"prop": "C19", "config": cfg, "steps": steps, "final": ["c19"]}
+
+
+def c18_longline_run(rng):
+    """Recorded finding F-LONGLINE: a command line longer than the stream reader's limit (64 KiB) - e.g. `cancel` with
+    14 000 ids - is not answered; the ValueError of readline() escapes and ends the session."""
+    cfg = base_config(rng, rng.choice(["T", "S"]), frag=0.0)
+    n = rng.choice([65536, 65537, 70000, 131073, 200000])
+    kind = rng.choice(["ids", "token"])
+    if kind == "ids":
+        ids = []
+        while sum(len(x) + 1 for x in ids) < n:
+            ids.append(str(len(ids)))
+        text = "cancel " + " ".join(ids)
+    else:
+        text = "no-such-command-" + "y" * n
+    steps = [{"op": "start"}, {"op": "idle"}, {"op": "connect", "c": 1, "w": 80}, {"op": "connect", "c": 2, "w": 80}, {"op": "idle"},
+             {"op": "line", "c": 1, "text": "num-running"}, {"op": "idle"}]
+    if rng.random() < 0.5:
+        steps.append({"op": "line", "c": 1, "text": text})
+    else:
+        k = rng.randrange(1, len(text))
+        steps += [{"op": "raw", "c": 1, "data": text[:k]}, {"op": "idle"}, {"op": "raw", "c": 1, "data": text[k:] + "\n"}]
+    steps += [{"op": "idle"}, {"op": "line", "c": 1, "text": "num-running"}, {"op": "line", "c": 2, "text": "num-running"}, {"op": "idle"}]
+    return {"prop": "C18", "config": cfg, "steps": steps, "final": ["sessions_clean", "reply_counts"]}
+
+
+def storm_run(rng, prop):
+    """Scale in sessions: N clients that misbehave or just come and go (malformed / absent handshake, abrupt ends), or N
+    simultaneously connected well-behaved ones, and then a regular client that must be served like the first one."""
+    cfg = base_config(rng, rng.choice(["T", "S"]), frag=0.0)
+    cfg["net"]["max_chunk"] = 0
+    n = rng.choice([17, 33, 65, 130])
+    steps = [{"op": "start"}, {"op": "idle"}]
+    mode = rng.choice(["bad", "bad", "concurrent", "sequential"])
+    for i in range(n):
+        lab = 100 + i
+        if mode == "bad":
+            steps.append({"op": "connect", "c": lab, "w": 80, "hs": rng.choice(["garbage", "none", "nokey", "partial"])})
+            if rng.random() < 0.3:
+                steps.append({"op": "run", "n": rng.choice([1, 5])})
+            steps.append({"op": "close", "c": lab, "how": rng.choice(["close", "abort", "eof"])})
+        else:
+            steps.append({"op": "connect", "c": lab, "w": 80})
+            steps.append({"op": "line", "c": lab, "text": rng.choice(["num-running", "is-locked", "bogus"])})
+            if mode == "sequential":
+                steps += [{"op": "idle"}, {"op": "close", "c": lab, "how": rng.choice(["close", "abort", "eof"])}]
+        if i % 8 == 7:
+            steps.append({"op": "idle"})
+    steps += [{"op": "idle"}, {"op": "connect", "c": 1, "w": 80}, {"op": "idle"}]
+    for text in ("num-running", "is-locked", "pool-size"):
+        steps += [{"op": "line", "c": 1, "text": text}, {"op": "idle"}]
+    if prop == "C19":
+        return {"prop": "C19", "config": cfg, "steps": steps, "final": ["c19"]}
+    return {"prop": "C18", "config": cfg, "steps": steps, "final": ["sessions_clean", "reply_counts"]}
 
 
 def c18_killed_session_run(rng):
@@ -866,7 +953,8 @@ def _final_c19(sim):
     # every raw client that is still connected was answered line by line
     for c in sim.clients.values():
         if c.kind == "raw" and c.connected and not c.gone and not sim.stopped and not c.bad_handshake \
-                and c.label not in sim.run.get("expect_killed", ()) and getattr(c, "epoch", 0) == getattr(sim, "epoch", 0):
+                and c.label not in sim.run.get("expect_killed", ()) and getattr(c, "epoch", 0) == getattr(sim, "epoch", 0) \
+                and c.label not in sim.overlong_lines():      # (a session that got an over-long line: recorded finding F-LONGLINE, C18)
             nrep, nlines = len(c.replies()), len(c.lines)
             if nrep < nlines:
                 from .ctlsim import BLOCKING
@@ -1003,6 +1091,10 @@ def units(prop, tier, seed):
 
                 yield ("c16", (stock, cls, w, tr, subseed(seed, prop, i)), next(order))
                 i += 1
+        # every terminal width from 0 to 140 (and a few large ones) once, on alternating classes and transports
+        for w in list(range(0, 141)) + [255, 256, 1000, 65536]:
+            cls = ("T", "S", "Tx", "Sx")[w % 4]
+            yield ("c16", (False, cls, w, ("tcp", "unix")[(w // 4) % 2], subseed(seed, prop, "w", w)), next(order))
         if tier != "quick":
             while True:
                 rng = random.Random(subseed(seed, prop, "r", i))
@@ -1012,7 +1104,16 @@ def units(prop, tier, seed):
         return
     n = QUICK_N[prop]
     i = 0
+    if prop == "C17":
+        for k in range(2 if tier == "quick" else 6):
+            yield ("bigtwin", subseed(seed, prop, "big", k), next(order))
+    if prop in ("C18", "C19"):
+        for k in range(8 if tier == "quick" else 60):
+            yield ("storm", subseed(seed, prop, "storm", k), next(order))
     if prop == "C18":
+        yield ("witness", "witness/F-LONGLINE-C18.json", next(order))
+        for k in range(8 if tier == "quick" else 40):
+            yield ("longline", subseed(seed, prop, "longline", k), next(order))
         yield ("witness", "witness/F-EARLY-C18.json", next(order))
         for k in range(6 if tier == "quick" else 40):
             yield ("killed18", subseed(seed, prop, "killed", k), next(order))
@@ -1079,8 +1180,9 @@ def exec_unit(prop, unit, agg):
         agg.stats["c16_width_%d" % w] += 1
         return
     if prop == "C17":
+        big = kind == "bigtwin"
         rng = random.Random(arg)
-        cfg, cmds = c17_unit(rng, arg)
+        cfg, cmds = c17_unit(rng, "big" if big else arg)
         a, ta, ra = c17_exec(copy.deepcopy(cfg), cmds, "served")
         b, tb, rb = c17_exec(copy.deepcopy(cfg), cmds, "direct")
         agg.stats["c17_commands"] += len(cmds)
@@ -1100,6 +1202,15 @@ def exec_unit(prop, unit, agg):
             a.violate("C17", mism[0], mism[1])
         a.run = {"prop": "C17", "config": cfg, "cmds": cmds, "steps": [], "seed": arg, "twin": True}
         _account(prop, a, agg, order, "twin", len(a.invocations) > 0 or any(r not in ("ok", None) for r in ra))
+        return
+    if kind == "longline":
+        sim = CtlSim(c18_longline_run(random.Random(arg)), {prop}).execute()
+        _account(prop, sim, agg, order, "longline", True)
+        return
+    if kind == "storm":
+        sim = CtlSim(storm_run(random.Random(arg), prop), {prop}).execute()
+        agg.stats["probe:storm_clients"] += sum(1 for c in sim.clients.values() if c.label >= 100)
+        _account(prop, sim, agg, order, "storm", True)
         return
     if kind == "killed18":
         sim = CtlSim(c18_killed_session_run(random.Random(arg)), {prop}).execute()
